@@ -76,6 +76,19 @@ func (c *Case) scriptLines(id int) []string {
 			lines = append(lines, "probe:gate "+at)
 		case 'f':
 			lines = append(lines, "probe:fail "+at)
+		case 't':
+			lines = append(lines, "probe:stop "+at)
+		case 'x':
+			// the marker records `cmd t i` and `ret t i err` (the position at which RunLoop is about to
+			// fail) and returns nil; the next line names a command that does not exist
+			lines = append(lines, "probe:mark "+at+"\nnosuch:command"+letters(id)+" "+at)
+		case 'q':
+			// marker as for x; then the text ends inside a quoted argument / an unterminated multi-line value
+			tail := "probe:begin " + at + " --note=\"the text ends here"
+			if (id+i)%2 == 1 {
+				tail = "probe:begin " + at + " --note=<<QEND\nthe text ends here"
+			}
+			lines = append(lines, "probe:mark "+at+"\n"+tail)
 		case 's':
 			child := c.Tasks[cmd.Arg]
 			wait := ""
